@@ -166,3 +166,10 @@ PROPS.update({
             "floors": {"quick": {"distinct_nontrivial": 20, "obs.dispatch_ok": 300, "obs.legs_checked": 20000, "obs.rewinds": 20, "obs.trains_rerouted_off_the_shortest_route": 5},
                        "thorough": {"distinct_nontrivial": 800, "obs.dispatch_ok": 12000}}},
 })
+
+PROPS["C18"] = {"level": "exploration", "process_rounds": {"quick": 4, "thorough": 6},
+    "technique": "runtime monitor: byte-wise comparison of output digests of every pipeline across repeated executions in one process and across several fresh processes (different hash-map seeds); element-wise comparison of LocomotiveSimulationVec::walk(parallel) under rayon pools of 1..16 threads with each element's own serial walk; thorough tier adds ThreadSanitizer and Miri (-Zmiri-many-seeds) runs of the batch walk",
+    "level_text": "Outputs of thousands of generated simulations, estimated-time constructions and dispatches are compared between repeated and fresh-process executions, and every element of generated batches between parallel and serial walks for eight pool sizes; held on all observed executions. Scheduling coverage is what the pool sizes, repetitions, TSan's happens-before analysis and Miri's seeds provide; rayon interleavings cannot be enumerated.",
+    "level_note": "Trusted: YAML serialization of the result objects as their identity (result types contain no hash maps); FNV/SplitMix digest collisions are negligible (length is part of the digest).",
+    "floors": {"quick": {"distinct_nontrivial": 300, "obs.digests_compared_across_processes": 3000, "obs.parallel_batch_walks": 1000, "obs.elements_compared": 50000, "obs.batches_with_failing_elements": 20, "obs.pipeline.make_est_times": 50, "obs.pipeline.run_dispatch": 30},
+               "thorough": {"distinct_nontrivial": 10000, "obs.digests_compared_across_processes": 100000}}}
